@@ -2,6 +2,17 @@
 """Imports confirmed seeded changes from /tmp/seeded-out into /verif/seeded/<prop>-<variant>/."""
 import json, os, re, shutil, sys
 SUMMARY = {
+ "C05-C": ("RawTable::insert reuses the slot found before reserve(1) when the table was rehashed in place", "broken hashing only: a stored key that reports a different hash during the in-place rehash is moved into the pending insert's EMPTY slot and overwritten (len one larger than FULL buckets)"),
+ "C07-C": ("ptr::eq fast paths in eq/is_subset/is_disjoint; the is_disjoint one returns false", "the same (empty) set object passed on both sides"),
+ "C07-D": ("get_or_insert_with downgrades its equivalence assert! to debug_assert!", "release builds only (no debug assertions): a non-equivalent value is stored"),
+ "C12-C": ("reserve_rehash_inner: when the allocator refuses, reclaim tombstones in place and return Ok (guard over-counts by the reserved 1/8)", "an allocator refusal exactly when full_capacity < len+additional <= buckets"),
+ "C12-D": ("try_reserve fail-fast guard divides by size_of::<T>()", "zero-sized element types: division by zero panic on the slow path"),
+ "C15-C": ("get_many_mut_pointers sorts lookups by control-byte page and applies the permutation twice instead of inverting it", "tables of >= 8192 buckets, N >= 3, probe-start pages in cyclic order"),
+ "C17-C": ("calculate_layout_for computes size << buckets.trailing_zeros() instead of checked_mul", "size*buckets >= 2^64 (wraps silently)"),
+ "C17-D": ("capacity_to_buckets small-capacity table replaced by a formula that yields 5 buckets for 3-byte elements", "3-byte element types on 16-byte groups, capacities 1..=3"),
+ "C18-C": ("RawIterHashInner advances linearly by Group::WIDTH instead of the triangular probe sequence", "iter_hash for an element whose probe chain spans >= 3 groups with an EMPTY in the skipped group; differs between group widths"),
+ "C20-C": ("HashSet::deserialize_in_place fetches the first element before clearing the place", "empty input deserialised in place into a non-empty set"),
+ "C20-D": ("HashSet visitor inserts with insert_unique_unchecked", "set input that repeats an element"),
  "C01-C": ("rehash_in_place: hash hoisted out of the 'inner loop and refreshed after a swap with hasher(new_i) instead of slot i", "in-place rehash with a wrapped overflow chain and two distinct hashes (survived 3x5M random ops of the author's own differential harness)"),
  "C01-D": ("RawTable::insert re-probes after reserve(1) only if the bucket count changed (same idea as C14-A)", "vacant-entry insert at full load whose first probe window is 16 live entries in a table at most half live (never found in 300M random ops by the author's harness)"),
  "C04-C": ("rehash_in_place hashes the displaced element after replace_ctrl_hash has already rewritten the control byte", "a hasher panic at exactly that call in the cross-probe-group swap case of an in-place rehash"),
